@@ -2490,12 +2490,12 @@ inline void* gp_put99(GPHashMap* dict, GPStrIn key)
 }
 #ifdef GP_TYPEOF
 #define GP_PUT_ELEM(DICT, ELEM, ...) ( \
-    *(GP_TYPEOF(*(DICT)))(gp_put99((GPHashMap*)*(DICT), GP_STR_IN99(__VA_ARGS__))) = (ELEM))
+    *(GP_TYPEOF(*(DICT)))(gp_put99((GPHashMap*)*(DICT), GP_STR_IN(__VA_ARGS__))) = (ELEM))
 #else
 #define GP_PUT_ELEM(DICT, ELEM, ...) do \
 { \
     void* _gp_dict = *(DICT); \
-    GPStrIn _gp_key = GP_STR_IN99(__VA_ARGS__); \
+    GPStrIn _gp_key = GP_STR_IN(__VA_ARGS__); \
      *(DICT) = gp_hash_map_put(_gp_dict, _gp_key.data, _gp_key.length, NULL); \
     **(DICT) = (ELEM); \
      *(DICT) = _gp_dict; \
@@ -2512,16 +2512,16 @@ inline void* gp_get99(void* map, GPStrIn key)
 }
 
 #ifdef GP_TYPEOF
-#define GP_GET(DICT, ...) ((GP_TYPEOF(DICT))gp_get99(DICT, GP_STR_IN99(__VA_ARGS__)))
+#define GP_GET(DICT, ...) ((GP_TYPEOF(DICT))gp_get99(DICT, GP_STR_IN(__VA_ARGS__)))
 #else
-#define GP_GET(DICT, ...) gp_get99(DICT, GP_STR_IN99(__VA_ARGS__))
+#define GP_GET(DICT, ...) gp_get99(DICT, GP_STR_IN(__VA_ARGS__))
 #endif
 
 inline bool gp_remove99(GPHashMap* dict, GPStrIn key)
 {
     return gp_hash_map_remove(dict, key.data, key.length);
 }
-#define GP_REMOVE(DICT, ...) gp_remove99((GPHashMap*)*(DICT), GP_STR_IN99(__VA_ARGS__))
+#define GP_REMOVE(DICT, ...) gp_remove99((GPHashMap*)*(DICT), GP_STR_IN(__VA_ARGS__))
 
 // ----------------------------------------------------------------------------
 // Allocators
